@@ -1,6 +1,8 @@
 import Rspirv.Props.C02Typed
 import Rspirv.Props.RoundTrip
 import Rspirv.Props.C06End
+import Rspirv.Props.C02TypedConv
+import Rspirv.Props.C01Full
 /-!
 # The typing judgement on the tables of this tree, and what it buys
 
@@ -50,6 +52,44 @@ theorem C02_typed (τ : Tracker) (idx : Nat) (i : Inst) (h : InstT theTables τ 
 /-- typed histories: `C06_roundtrip`'s grammar hypothesis follows from the typing of the module's instructions -/
 theorem typedStream_grammar_inst (is : List Inst) (τ : Tracker) (h : TypedStream theTables τ is) :
     GrammarStream theTables τ is := typedStream_grammar theTables typed_tables is τ h
+
+/-- and conversely: a `GrammarStream` whose instructions assemble to 32-bit words is a stream of conforming instructions -/
+theorem grammar_typedStream (G : Tables) (tt : TypedTables G) : ∀ (is : List Inst) (τ : Tracker),
+    GrammarStream G τ is → (∀ i ∈ is, WordsOk (assembleInst i)) → TypedStream G τ is
+  | [], _, _, _ => trivial
+  | i :: t, τ, h, hw => by
+    obtain ⟨⟨ws, rest, hs⟩, hlen, τ1, ht, hrest⟩ := h
+    have h0 := C02_spec G tt.good τ ws i rest hs hlen []
+    refine ⟨Rspirv.Props.C02TypedConv.spec_typed G tt.good τ _ i [] h0 (by simpa using hw i (by simp)), τ1, ht, ?_⟩
+    exact grammar_typedStream G tt t τ1 hrest (fun x hx => hw x (by simp [hx]))
+
+/-- **every instruction `load_bytes` delivers conforms to the grammar** (typing judgement), the tracker following the stream -/
+theorem delivered_typed (bytes : List Nat) (hb : ∀ b ∈ bytes, b < 256) (hs : bytes.length < 2 ^ 63) (m : Module Inst)
+    (h : loadBytes theTables theLTables bytes = .ok m) :
+    ∃ hd is, load theLTables hd is = .ok m ∧ Rspirv.Props.C01Full.Chunks is (Spec.streamWords bytes) ∧
+      TypedStream theTables [] is := by
+  obtain ⟨h20, hmagic, _⟩ :=
+    Rspirv.Props.C01Full.C01_full theTables theLTables Rspirv.Props.C04.tables_safe good_tables bytes hb hs m h
+  -- the delivered instructions are what the recogniser reads from the stream words
+  obtain ⟨hd, is, htr, hl⟩ := Rspirv.Props.C01.C01_loadBytes theTables theLTables bytes m h
+  obtain ⟨_, htr2⟩ := C03_accept_header theTables Rspirv.Props.C04.tables_safe bytes hb hs h20 hmagic
+  rw [htr2] at htr
+  have hrest := (List.cons.inj (List.cons.inj htr).2).2
+  obtain ⟨his, hfin⟩ := Rspirv.Props.C01Full.map_inst_append _ is _ (by split <;> simp) hrest
+  have hall : (Spec.insts theTables (bytes.length + 1) [] (Spec.streamWords bytes)).2 = [] := by
+    by_cases hc : (Spec.insts theTables (bytes.length + 1) [] (Spec.streamWords bytes)).2 = []
+    · exact hc
+    · rw [if_neg hc] at hfin; cases hfin
+  have hwok := Rspirv.Props.C01Layout.streamWords_ok bytes hb
+  have hch : Rspirv.Props.C01Full.Chunks is (Spec.streamWords bytes) :=
+    his ▸ Rspirv.Props.C01Full.insts_chunks theTables good_tables _ [] _ hall
+  have hg : GrammarStream theTables [] is := by
+    rw [← his]
+    exact Rspirv.Props.C01Layout.insts_stream theTables good_tables _ [] _ hwok
+  refine ⟨hd, is, hl, hch, grammar_typedStream theTables typed_tables is [] hg ?_⟩
+  intro i hi
+  obtain ⟨u, _, _, _, r2, _⟩ := hch.reencode hwok i hi
+  exact r2
 
 /-! ### non-vacuity: concrete conforming instructions on the tables of this tree -/
 
